@@ -90,6 +90,21 @@ where
         shard.find(hash, |p| key.equivalent(p.key())).cloned()
     }
 
+    /// Remove the piece of the key from the write-queue view, if any.
+    pub fn remove<Q>(&self, hash: u64, key: &Q)
+    where
+        Q: Hash + equivalent::Equivalent<K> + ?Sized,
+    {
+        let shard = self.shard(hash);
+        // Drop the removed piece out of the lock critical section.
+        let removed = shard
+            .write()
+            .find_entry(hash, |p| key.equivalent(p.key()))
+            .ok()
+            .map(|o| o.remove().0);
+        drop(removed);
+    }
+
     fn shard(&self, hash: u64) -> Arc<RwLock<Shard<K, V, P>>> {
         let index = (hash as usize) % self.inner.shards.len();
         self.inner.shards[index].clone()
